@@ -83,11 +83,31 @@ class MyS(xgi.SimplicialComplex):
 
 def net_of(c):
     """the real network of a case (an instance of a trivial subclass when the case says so)"""
-    return build(c["cls"], c["H"], subclass=bool(c.get("subclass")))
+    return build(c["cls"], c["H"], subclass=bool(c.get("subclass")), np_labels=bool(c.get("np_labels")))
 
 
-def build(cls, enc, subclass=False):
-    """rebuild the real network of a case: same node order, edge order, edge IDs (public API only)"""
+def build(cls, enc, subclass=False, np_labels=False):
+    """rebuild the real network of a case: same node order, edge order, edge IDs (public API only); with `np_labels`
+    every integer node label is handed over as a numpy integer (as labels read from arrays are): equal to, and encoded
+    like, the plain integer, so the expected keys are unchanged"""
+    if np_labels:
+        _dec = dec_id
+        dec = lambda j: np.int64(j) if isinstance(j, int) and not isinstance(j, bool) and abs(j) < 2**62 else _dec(j)
+        nodes = [dec(n) for n in enc["nodes"]]
+        if cls == "sc":
+            S = (MyS if subclass else xgi.SimplicialComplex)()
+            S.add_nodes_from(nodes)
+            d = {_dec(e): [dec(x) for x in ms] for e, ms in enc["edges"]}
+            if d:
+                with warnings.catch_warnings():
+                    warnings.simplefilter("ignore")
+                    S.add_simplices_from(d)
+            return S
+        H = (MyH if subclass else xgi.Hypergraph)()
+        H.add_nodes_from(nodes)
+        for e, ms in enc["edges"]:
+            H.add_edge([dec(x) for x in ms], idx=_dec(e))
+        return H
     nodes = [dec_id(n) for n in enc["nodes"]]
     if cls == "sc":
         S = (MyS if subclass else xgi.SimplicialComplex)()
@@ -941,7 +961,7 @@ def pred(c, r):
         for kind, k, what in r["bad"]:
             fails.append(("layout-position-" + kind, f"position of {k}: {what}"))
             break
-        if r["phantom"] is not None:
+        if r["phantom"] is not None and not c.get("np_labels"):
             ms = hyper_members(c)
             k = sum(1 for m in ms if len(m) >= 2)
             extra = [x for x in r["phantom"] if json.dumps(x) not in set(map(json.dumps, nodes))]
@@ -1372,6 +1392,8 @@ def layout_cases(rng, cls, enc, names, skip=()):
         if any(k in name for k in skip):
             continue
         c = {"f": "layout_keys", "fn": name, "cls": cls, "H": enc, "opts": layout_option_variants(rng, name)}
+        if rng.random() < 0.3 and not c["opts"].get("return_phantom_graph") and any(isinstance(n, int) and not isinstance(n, bool) for n in enc["nodes"]):
+            c["np_labels"] = True      # integer labels as numpy integers (review 2, A7): still one position per node
         fam = LAYOUT_FAMILY.get(name)
         if fam:
             c["family"] = fam
@@ -1739,8 +1761,10 @@ def run(ctx):
     ctx.extra["phase_seconds"]["search_and_shrink"] = round(time.time() - t0, 1)
     ctx.extra["style_read_back"] = dict(sorted(READ_BACK.items()))   # includes re-evaluations while shrinking
     ctx.assumptions = [
-        "labels int/str/flat tuples of these (bool/float/numpy-integer IDs outside the model: A7 of review 2 — phantom nodes of the barycenter "
-        "layouts collide with numpy-int labels — is therefore not generated); networks satisfy Net.WF (C01); a SimplicialComplex is closed "
+        "labels int/str/flat tuples of these; the layout cases also hand integer labels over as numpy integers (the phantom nodes of the "
+        "barycenter layouts may then share an ID with a node, which must still get its one position; the returned phantom graph "
+        "itself is not asked for in these cases: with numpy-integer labels its phantom IDs collide with node IDs on the unchanged tree, "
+        "review 2 A7, outside the statement); bool/float IDs are outside the model; networks satisfy Net.WF (C01); a SimplicialComplex is closed "
         "under faces with >= 2 nodes and has no repeated or empty simplex (C03)",
         "drawing domain: at least one edge with >= 2 nodes; max_order None or >= 0; every node has a position (pos may have MORE keys); "
         "per-element sequences have one entry per drawn element (per-ID dicts possibly more: one per edge) and are only generated where at "
